@@ -350,7 +350,7 @@ fn run(ctx: &Ctx, env: &Env) -> Stats {
             }
         }
     }
-    let n_rand = ctx.t(25_000u64, 800_000);
+    let n_rand = ctx.t(25_000u64, 2_000_000);
     for j in 0..16 {
         jobs.push(Box::new(move |ctx: &Ctx| {
             let mut part = Part::new(ctx, format!("random/hist/{}", j), "proptest byte strings decoded into copy histories", false);
